@@ -35,7 +35,44 @@ fn main() {
         eprintln!("usage: mc run <property> <quick|thorough> | worker ... | replay <file>");
         std::process::exit(2);
     }
+    if matches!(args[0].as_str(), "worker" | "digest") && std::env::var("MC_NOASLR").is_err() {
+        // machine code embeds runtime addresses: make them equal across processes
+        unsafe {
+            const ADDR_NO_RANDOMIZE: libc::c_ulong = 0x0040000;
+            if libc::personality(ADDR_NO_RANDOMIZE) != -1 {
+                use std::os::unix::process::CommandExt;
+                let exe = std::env::current_exe().unwrap();
+                let err = std::process::Command::new(exe).args(&args).env("MC_NOASLR", "1").exec();
+                eprintln!("re-exec failed: {err}");
+            }
+        }
+    }
     match args[0].as_str() {
+        "find-level-probe" => {
+            // development aid: programs whose printed IR differs between all of -O0..-O3
+            let mut found = 0;
+            let mut f = |_: u64, c: &[u8]| {
+                if found >= 12 {
+                    return;
+                }
+                let t = std::str::from_utf8(c).unwrap();
+                let irs: Vec<_> = (0..4).map(|l| hshim::exec::ir_text(hshim::exec::Width::W8, l, t).unwrap_or_default()).collect();
+                if irs[0] != irs[1] && irs[1] != irs[2] && irs[2] != irs[3] && irs[0] != irs[2] && irs[1] != irs[3] && irs[0] != irs[3] {
+                    println!("{t}");
+                    found += 1;
+                }
+            };
+            spaces::space_b(5, &mut f);
+            spaces::space_s(2, 0, &mut f);
+            spaces::space_a(8, &mut f);
+        }
+        "digest" => {
+            let w = hshim::exec::Width::from_bits(args[1].parse().unwrap_or(8)).unwrap_or(hshim::exec::Width::W8);
+            match checks::compile::digest(w, args[2].parse().unwrap_or(0), &args[3]) {
+                Ok(d) => println!("{d:016x}"),
+                Err(e) => println!("error {e}"),
+            }
+        }
         "worker" => {
             let mut ctx = framework::make_worker_ctx(&args[1..]);
             checks::worker(&mut ctx);
@@ -131,6 +168,31 @@ fn run_check(prop: &str, tier: Tier) -> i32 {
         for c in out.crashes {
             crashes.push((sub.to_string(), exe.clone(), c));
         }
+        *stats.entry("cross_process_keys_compared".to_string()).or_insert(0) += out.agreed_keys;
+        for (k, vs) in out.disagreements.iter().take(5) {
+            // C13.det: key = idx << 8 | width index << 4 | level
+            let idx = k >> 8;
+            let (lines, _) = framework::run_one(&exe, sub, tier, idx, 120);
+            let program = lines.iter().find_map(|l| l.strip_prefix("P\t").and_then(|r| r.split_once('\t')).map(|x| x.1.to_string())).unwrap_or_default();
+            let widths = [8, 16, 32, 64];
+            let wi = ((k >> 4) & 0xf) as usize;
+            let wbits = if tier == Tier::Quick { [8, 64][wi.min(1)] } else { widths[wi.min(3)] };
+            violations.push(
+                J::obj()
+                    .set("property", prop)
+                    .set("kind", "compile")
+                    .set("check", sub.as_str())
+                    .set("tier", tier.name())
+                    .set("key", format!("{prop}|cross-process|{wbits}|{}|{program}", k & 0xf))
+                    .set("class", "nondeterministic")
+                    .set("what", "cross-process")
+                    .set("width", wbits)
+                    .set("level", k & 0xf)
+                    .set("program", program)
+                    .set("observed", format!("digests {:x?} from different worker processes", vs)),
+            );
+        }
+        vcount += out.disagreements.len() as u64;
         capped |= out.capped;
     }
 
